@@ -4,14 +4,19 @@ backends    every jax model function vs its tensortrax namesake: both real funct
             symbolic C, psi_jax == psi_tt (equal energies => equal stress and elasticity under the AD
             contracts).  Invariant-based models on a full symmetric C; principal-stretch models (storakers,
             extended_tube) on the diagonal restriction C = diag(a,b,c), a,b,c > 0 (both are proved isotropic
-            in C11), with jax' literal eigenvalue perturbation diag(0,+-1e-4) replaced by 0.
+            in C11), with jax' literal eigenvalue perturbation diag(0,+-1e-4) replaced by 0.  Real exponents
+            (storakers alpha / beta, extended_tube beta, micro-sphere p / q) are universally quantified symbols
+            in the `*=real` configurations; the micro-sphere model (not exactly isotropic) is then compared on
+            the full symmetric C as well.
 handcoded   NeoHooke(mu) vs neo_hooke (both back ends): energy, stress and elasticity on symbolic F;
             OgdenRoxburgh(NeoHooke(mu)) vs tensortrax ogden_roxburgh(neo_hooke): stress and history.
 linear      LinearElastic == LinearElasticTensorNotation == MaterialStrain(linear_elastic) via lame_converter;
             plane stress / plane strain vs the 3D law under sigma_33 = 0 / eps_33 = 0; LinearElasticOrthotropic
             vs the engineering compliance and vs the orthotropic SVK tangent via lame_converter_orthotropic.
 moduli      initial tangent at F = I == isotropic linear-elastic tangent with the moduli the *docstring* states
-            (table DOC below, transcribed from the docstrings -- not from the code).
+            (table DOC below, transcribed from the docstrings -- not from the code); closed forms in the
+            symbolic parameters *and exponents* (`*=real` configurations: ogden, lopez_pamies, storakers,
+            extended_tube, saint_venant_kirchhoff k).
 """
 import itertools
 from fractions import Fraction as Fr
@@ -37,19 +42,20 @@ TRUSTED = M.TRUSTED + [
     "C12: jax principal-stretch models (storakers, extended_tube) are compared with their tensortrax namesakes with jax' literal eigenvalue perturbation diag(0, +-1e-4) replaced by 0 (identity at perturbation 0; the deviation with the literal is of the documented size 1e-4); van_der_waals' literal regularisation Im += 1e-4 is kept (identical in both back ends) and replaced by a symbol eps for the documented modulus (closed form in eps, equal to the documented mu at eps = 0)",
     "C12 lemma (A6): two isotropic energies agree iff their restrictions to C = diag(a,b,c), a,b,c>0 agree; an isotropic fourth-order tensor with minor and major symmetry is fixed by (lambda, mu), so the initial tangent of an isotropic model is the linear-elastic tangent with mu0 = 2(psi_aa - psi_ab) + psi_a, K0 = 4 psi_ab + 2/3 mu0 at a=b=c=1",
     "C12: fractional powers of monomials in positive quantities are canonicalised ((x^2)^(3/4) = (x^(1/2))^3 = x^(3/2); roots of one base unified to the common root) -- sound rewriting under the recorded positivity facts (vk/models.py nthroot_canonical, unify_roots)",
-    "C12: models with real exponents are compared / evaluated at the listed rational exponent values",
+    "C12: powers with a symbolic real exponent are canonicalised by identities of positive reals: pw(c prod g_i^e_i, x) = pw(c, x) prod pw(g_i, e_i x) for positive factors, pw(root(p, n), x) = pw(p, x/n), pw(p, -x) = 1/pw(p, x), pw(p, x + c) = pw(p, x) p^c, and atoms pw(p, s_i x) of one base are unified to the common scale gcd(s_i) (vk/ring.py powatom, vk/models.py powatom_canonical, unify_pows; each rule is cross-checked against sympy by the kernel self-test)",
+    "C12: real exponents: in the `*=real` configurations the exponents are universally quantified reals (no assumption on them except the denominators the executed code divides by, listed as side conditions): backends -- storakers alpha_i / beta_i, extended_tube beta, miehe_goektepe_lulei p / q (psi_jax == psi_tensortrax for all exponent values); moduli -- ogden alpha_i, lopez_pamies alpha_r, storakers alpha_i / beta_i, extended_tube beta, saint_venant_kirchhoff k (k != 2, k != 0: the code branches on these two values, which are separate configurations).  The rational instantiations are kept as additional configurations (root-atom path).  Still instantiated / not reached: the MORPH Lagrange models and alexander (bounded native stand-ins), saint_venant_kirchhoff_orthotropic k != 2 (eigh eigenvectors)",
 ]
 
 TRI = [(i, j) for i in range(3) for j in range(i, 3)]
 
 
 def zero_eq(vk, clause, lhs, rhs):
-    """obligation lhs == rhs decided on the unified-root form of the difference"""
+    """obligation lhs == rhs decided on the unified-root / unified-power form of the difference"""
     if vk.sym:
         d = np.asarray(np.asarray(lhs, dtype=object) - np.asarray(rhs, dtype=object), dtype=object)
         out = np.empty(d.shape, dtype=object)
         for i in np.ndindex(*d.shape):
-            out[i] = M.unify_roots(d[i])
+            out[i] = M.unify(d[i])
         vk.ensures_zero(clause, out if out.ndim else out[()])
     else:
         vk.ensures_zero(clause, np.asarray(lhs, dtype=float) - np.asarray(rhs, dtype=float))
@@ -64,9 +70,9 @@ SHARED = {
     "third_order_deformation": ([""], []),
     "blatz_ko": ([""], []),
     "van_der_waals": ([""], []),
-    "storakers": (["a=(3/2,-2),b=(1/2,1/3)"], ["a=(2),b=(1)", "a=(9/2,-9/2),b=(92/100,92/100)", "a=(1,4,-1/2),b=(1/3,2,1)"]),
-    "extended_tube": (["b=1/2"], ["b=1", "b=1/5", "b=2", "b=3/4"]),
-    "miehe_goektepe_lulei": (["p=2,q=2"], ["p=4,q=1", "p=3/2,q=1/2"]),
+    "storakers": (["a=real(2),b=real(2)", "a=real(3),b=real(3)", "a=(3/2,-2),b=(1/2,1/3)"], ["a=(2),b=(1)", "a=(9/2,-9/2),b=(92/100,92/100)", "a=(1,4,-1/2),b=(1/3,2,1)"]),
+    "extended_tube": (["b=real", "b=1/2"], ["b=1", "b=1/5", "b=2", "b=3/4"]),
+    "miehe_goektepe_lulei": (["p=real,q=real", "p=2,q=2"], ["p=4,q=1", "p=3/2,q=1/2"]),
 }
 BACKEND_CONFIGS = []
 for _n, (_q, _t) in SHARED.items():
@@ -87,6 +93,10 @@ def _ex(vk, x):
 
 def shared_params(vk, name, variant):
     p = lambda n, near=1.0: _par(vk, n, near)  # noqa: E731
+    if "real" in variant:
+        from .c11_objectivity import real_exponent_params
+
+        return real_exponent_params(vk, name, variant)
     if name == "storakers":
         a_, b_ = variant.split("),b=(")
         al, be = _fr_list(vk, a_[2:] + ")"), _fr_list(vk, "(" + b_)
@@ -136,7 +146,7 @@ def backends(vk, cfg):
     kw = shared_params(vk, name, variant)
     eig = name in ("storakers", "extended_tube")
     with M.canonical_roots() if vk.sym else _null():
-        if not eig and name != "miehe_goektepe_lulei":
+        if not eig and (name != "miehe_goektepe_lulei" or cfg.get("full", "real" in variant)):
             s0 = 1.25 if name == "van_der_waals" else 1.0
             C = M.sym_matrix(vk, "C", near=[[s0 if i == j else 0.0 for j in range(3)] for i in range(3)], spread=0.12)
             vk.requires(det_ref(C), ">")  # C = F^T F with det F > 0
@@ -182,7 +192,7 @@ def _native_lagrange(vk):
                 vk.bounded_standin(f"lagrange.{nm}: jax stress and state update == tensortrax (native float, relative)", "4 random F at the virgin state, tolerance 1e-4 (jax eigenvalue perturbation 1e-4)", 4, worst < 1e-4, f"max relative deviation {worst:.2e}")
             except Exception as e:  # pragma: no cover
                 vk.bounded_standin(f"lagrange.{nm}: native comparison failed", "-", 0, False, f"{type(e).__name__}: {str(e)[:120]}")
-    vk.note("not decided: agreement of the jax and tensortrax MORPH Lagrange models (bounded native stand-in only); micro-sphere p, q instantiated")
+    vk.note("not decided: agreement of the jax and tensortrax MORPH Lagrange models (bounded native stand-in only)")
 
 
 class _null:
@@ -480,11 +490,11 @@ DOC = {
     "van_der_waals": (lambda k: k["mu"], None, "mu : Initial shear modulus (within the 1e-4 regularisation)"),
 }
 DOC_VARIANTS = {
-    "ogden": (["a=(3/2,-2)"], ["a=(2,-2)", "a=(1,4)", "a=(13/10,5,-2)", "a=(1/2,-1/3)"]),
-    "lopez_pamies": (["a=(1,4)"], ["a=(1,2)", "a=(3/2,-1/2)", "a=(1/3,3)"]),
-    "storakers": (["a=(2,-2),b=(1/2,1/4)"], ["a=(2),b=(1)", "a=(9/2,-9/2),b=(92/100,92/100)", "a=(3/2,4),b=(1/3,2)"]),
-    "extended_tube": (["b=1/2"], ["b=1", "b=1/5", "b=2", "b=3/4"]),
-    "saint_venant_kirchhoff": (["k=2", "k=1"], ["k=0", "k=-2", "k=3", "k=1/2"]),
+    "ogden": (["a=real(2)", "a=real(3)", "a=(3/2,-2)"], ["a=(2,-2)", "a=(1,4)", "a=(13/10,5,-2)", "a=(1/2,-1/3)"]),
+    "lopez_pamies": (["a=real(2)", "a=real(3)", "a=(1,4)"], ["a=(1,2)", "a=(3/2,-1/2)", "a=(1/3,3)"]),
+    "storakers": (["a=real(2),b=real(2)", "a=real(3),b=real(3)", "a=(2,-2),b=(1/2,1/4)"], ["a=(2),b=(1)", "a=(9/2,-9/2),b=(92/100,92/100)", "a=(3/2,4),b=(1/3,2)"]),
+    "extended_tube": (["b=real", "b=1/2"], ["b=1", "b=1/5", "b=2", "b=3/4"]),
+    "saint_venant_kirchhoff": (["k=real", "k=2", "k=0", "k=1"], ["k=-2", "k=3", "k=1/2"]),
 }
 MODULI_CONFIGS = []
 for _lib, _tag in ((TT, "tensortrax"), (JX, "jax")):
@@ -559,7 +569,7 @@ def moduli(vk, cfg):
         with M.rebound(f):
             psi = co(f(Cd, **kw))
         pa, mu0, K0 = M.initial_moduli(psi, a, b, c)
-        vk.ensures_zero("stress-free-reference/psi_a(1,1,1)==0", M.unify_roots(pa))
+        vk.ensures_zero("stress-free-reference/psi_a(1,1,1)==0", M.unify(pa))
         if name == "van_der_waals":
             lim, av, mu = kw["limit"], kw["a"], kw["mu"]
             eta = (eps / (lim**2 - 3)) ** Fr(1, 2)
@@ -573,7 +583,7 @@ def moduli(vk, cfg):
         zero_eq(vk, "initial-shear-modulus==documented", mu0, doc_mu(kw))
         if doc_K is not None:
             zero_eq(vk, "initial-bulk-modulus==documented", K0, doc_K(kw))
-        vk.canary("initial-shear-modulus==2.documented", M.unify_roots(mu0), 2 * co(doc_mu(kw)) + 1)
+        vk.canary("initial-shear-modulus==2.documented", M.unify(mu0), 2 * co(doc_mu(kw)) + 1)
     vk.note(f"documented ({name}): {quote}")
 
 
